@@ -41,6 +41,9 @@ type LSXG struct {
 	// ForeignMI: the publisher protects the payload with the OTHER format version's
 	// integrity scheme, consistently (encoding, digest header, Content-Encoding).
 	ForeignMI bool
+	DateNs, ExpiresNs int64 // sub-second parts of the Signer's Date and Expires
+	// OldPayload: content whose MI digest (record size 16) the response states in X-Previous-Digest
+	OldPayload []byte
 	// EmptyValued: response header names present in the caller's map with no value
 	// at all (nil slice for even positions, empty slice for odd ones).
 	EmptyValued []string
@@ -122,6 +125,18 @@ func DrawSXG(c *core.Ctx, label string, uniq int) *LSXG {
 		}
 		c.Probe("signed header map with 23+ fields")
 	}
+	if c.Chance(label+".oldDigest", 1, 10) {
+		// the publisher also states the digest of the PREVIOUS version of the resource, in a
+		// header of its own (value shaped exactly like a Digest value)
+		d := refmice.Draft03
+		if l.Version == "1b1" {
+			d = refmice.Draft02
+		}
+		l.OldPayload = append([]byte("previous version: "), visible(c, label+".old", 0, 40)...)
+		dg, _ := refmice.Encode(d, l.OldPayload, 16)
+		l.RespHeaders = append(l.RespHeaders, HV{"X-Previous-Digest", dg})
+		c.Probe("response stating the digest of an older version in another header")
+	}
 	if c.Chance(label+".preEncoded", 1, 8) {
 		// the response was already content-coded before integrity protection is stacked on top
 		l.RespHeaders = append(l.RespHeaders, HV{"Content-Encoding", c.PickStr(label+".coding", "gzip", "br", "identity")})
@@ -175,6 +190,10 @@ func DrawSXG(c *core.Ctx, label string, uniq int) *LSXG {
 	}
 	l.CertURL = "https://cert.example/" + l.Leaf.Name + ".cbor"
 	l.Entropy = byte(c.Int(label+".entropy", 0, 255))
+	if c.Chance(label+".subSecondTimes", 1, 5) {
+		l.DateNs = c.PickI64(label+".dateNs", 900000000, 1, 500000000, 999999999)
+		l.ExpiresNs = c.PickI64(label+".expiresNs", 100000000, 0, 500000000, 999999999)
+	}
 	return l
 }
 
@@ -243,8 +262,10 @@ func (l *LSXG) Signer() *signedexchange.Signer {
 	cu, _ := url.Parse(l.CertURL)
 	vu, _ := url.Parse(l.ValidityURL)
 	return &signedexchange.Signer{
-		Date:        time.Unix(l.Date, 0),
-		Expires:     time.Unix(l.Expires, 0),
+		// (the publisher reads a real clock: its Date and Expires need not be whole seconds;
+		// the signed parameters are the whole seconds they fall into)
+		Date:        time.Unix(l.Date, l.DateNs),
+		Expires:     time.Unix(l.Expires, l.ExpiresNs),
 		Certs:       []*x509.Certificate{l.Leaf.Cert(), l.Leaf.Issuer()},
 		CertUrl:     cu,
 		ValidityUrl: vu,
